@@ -113,8 +113,9 @@ VALID = {
     "dict": [{"a": "b"}, {}], "str": ["u", ""],
 }
 INVALID = {
-    "bool": ["yes", 5, 0], "service": [1.5, []], "location": [5, b"x"], "int": ["1", 2.5], "plugins": ["p", {}],
-    "timeout": ["5", []], "dict": [[], "d"], "str": [5, True], "obj": [5, "x", []],
+    "bool": ["yes", 5, 0, (), (True, False)], "service": [1.5, [], (0, 1)], "location": [5, b"x", ()], "int": ["1", 2.5, ()],
+    "plugins": ["p", {}], "timeout": ["5", [], (1, 2)], "dict": [[], "d", ()], "str": [5, True, ("a", "b")],
+    "obj": [5, "x", [], ()],
 }
 
 
@@ -506,6 +507,7 @@ def run(ctx):
     constructor_order(ctx)
     clone_behaviour(ctx)
     direct_options_objects(ctx)
+    clone_over_custom_transport(ctx)
     ctx.sample({"script": [{"k": "client"}, {"k": "clone", "c": 0}, {"k": "tset", "c": 1, "name": "timeout", "value": 5},
                            {"k": "set", "c": 0, "name": "faults", "value": "yes"}]})
 
@@ -628,6 +630,37 @@ def clone_behaviour(ctx):
                          repr(want_c))
 
 
+def clone_over_custom_transport(ctx):
+    """A client over a caller-written Transport subclass: the clone starts with the original's transport option
+    values, the original keeps them, and afterwards each follows its own assignments."""
+    import suds.transport
+    from harness.props import c15
+
+    class Mine(suds.transport.Transport):
+        def open(self, request):
+            raise AssertionError("no open")
+
+        def send(self, request):
+            return None
+    w = c15.wsdl_two_ops("http://h.invalid/x")
+    c = wsdlkit.client(w, transport=Mine())
+    c.set_options(timeout=33, headers={"X-A": "1"})
+    ctx.case(("clone-custom-transport",), True)
+    try:
+        k = c.clone()
+        first = [c.options.timeout, k.options.timeout, c.options.headers, k.options.headers]
+        k.set_options(timeout=44)
+        c.options.transport.options.headers = {"X-B": "2"}
+        second = [c.options.timeout, k.options.timeout, c.options.headers, k.options.headers]
+    except Exception as e:
+        first, second = repr(e), None
+    want1 = [33, 33, {"X-A": "1"}, {"X-A": "1"}]
+    want2 = [33, 44, {"X-B": "2"}, {"X-A": "1"}]
+    if first != want1 or second != want2:
+        ctx.fail("options of a clone and its original over a custom transport are not the original's values, "
+                 "independent afterwards", {"stream": "clone-custom-transport"}, [first, second], [want1, want2])
+
+
 def constructor_order(ctx):
     """The constructor applies its keyword options in the order given, exactly as the same sequence of set_options
     calls on a plain client would - a transport among them included, wherever it stands."""
@@ -674,6 +707,12 @@ def transport_follows_options(ctx):
             srv.httpd.plan = lambda h: {"status": 200, "body": b""}
         w = wsdlkit.wsdl_doc('<xsd:element name="f"><xsd:complexType><xsd:sequence/></xsd:complexType></xsd:element>',
                              "f", None, location=origin.url("/svc"))
+        # (the process environment names a proxy too - proxy_b -: only the option counts)
+        import os
+        saved_env = {k_: os.environ.get(k_) for k_ in ("http_proxy", "HTTP_PROXY", "no_proxy", "NO_PROXY")}
+        for k_ in saved_env:
+            os.environ.pop(k_, None)
+        os.environ["http_proxy"] = os.environ["HTTP_PROXY"] = "http://127.0.0.1:%d" % proxy_b.port
         for _ in range(ctx.pick(6, 60)):
             c = wsdlkit.client(w, transport=suds.transport.http.HttpTransport())
             hist = []
@@ -706,6 +745,11 @@ def transport_follows_options(ctx):
                     ctx.fail("the transport does not use the proxy option currently set on the client", {"history": hist},
                              got, where)
                     break
+        for k_, v_ in saved_env.items():
+            if v_ is None:
+                os.environ.pop(k_, None)
+            else:
+                os.environ[k_] = v_
         # credentials: the username / password options set on the client are the ones its transport sends - the empty
         # string is a string (an account without password), not "unset"
         import base64
